@@ -338,15 +338,36 @@ Proof.
   intros H; inversion H; subst. rewrite (ret_const_inv _ _ Er), (xorb_true_negb _ _ Ex). reflexivity.
 Qed.
 
-Lemma fir_true t rest :
-  boolish t = true ->
-  equiv (SIf t [SReturn (RVal (VBool true))] [] :: SReturn (RVal (VBool false)) :: rest)
-        (SReturn (RTest t) :: rest).
+(* the value form of the repaired rule: the truth value of t as a bool, same draws and events *)
+Lemma as_value_val t o st :
+  eval_test o st (as_value t) = (VBool (truthy (fst (eval_test o st t))), snd (eval_test o st t)).
 Proof.
-  intros Hb o st r. rewrite runs_if, runs_ret. simpl eval_rexpr.
-  pose proof (boolish_val t o st Hb) as Hv.
-  destruct (eval_test o st t) as [v st1]. simpl in *.
-  destruct (truthy v) eqn:Et; subst v.
+  destruct t as [b|i rd|u]; unfold as_value, TBool.
+  - simpl. destruct b; reflexivity.
+  - rewrite !tnot_val. simpl fst. simpl snd. simpl truthy. rewrite negb_involutive. reflexivity.
+  - rewrite tnot_val. reflexivity.
+Qed.
+
+(* [vf t] evaluates to the truth value of t as a bool: holds for as_value always, for the identity on boolish tests *)
+Definition truth_form (vf : test -> test) (t : test) : Prop :=
+  forall o st, eval_test o st (vf t) = (VBool (truthy (fst (eval_test o st t))), snd (eval_test o st t)).
+
+Lemma truth_form_as_value t : truth_form as_value t.
+Proof. intros o st. apply as_value_val. Qed.
+
+Lemma truth_form_id t : boolish t = true -> truth_form (fun t => t) t.
+Proof.
+  intros Hb o st. pose proof (boolish_val t o st Hb) as Hv.
+  destruct (eval_test o st t) as [v st1]. simpl in *. congruence.
+Qed.
+
+Lemma fir_true vf t rest :
+  truth_form vf t ->
+  equiv (SIf t [SReturn (RVal (VBool true))] [] :: SReturn (RVal (VBool false)) :: rest)
+        (SReturn (RTest (vf t)) :: rest).
+Proof.
+  intros Hb o st r. rewrite runs_if, runs_ret. unfold eval_rexpr. rewrite (Hb o st). simpl fst. simpl snd.
+  destruct (truthy (fst (eval_test o st t))).
   - split.
     + intros [r1 [H1 H2]]. apply runs_ret in H1. simpl in H1. subst r1. exact H2.
     + intros ->. eexists; split; [apply runs_ret; reflexivity|reflexivity].
@@ -369,25 +390,44 @@ Proof.
     + intros ->. eexists; split; [apply runs_nil; reflexivity|]. simpl. apply runs_ret. reflexivity.
 Qed.
 
-Lemma fir_partial_n n : forall p, fir_safe n p = true -> equiv p (fir n p).
+Lemma fir_n n : forall p, equiv p (fir n p).
+Proof.
+  unfold fir. induction n as [|n IH]; intros p; simpl; [apply equiv_refl|].
+  destruct (fir_site p) as [[[t v] rest]|] eqn:Es.
+  - rewrite (fir_site_inv _ _ _ _ Es). destruct v; simpl.
+    + eapply equiv_trans; [apply (fir_true as_value), truth_form_as_value|]. apply equiv_cons, IH.
+    + eapply equiv_trans; [apply fir_false|]. apply equiv_cons, IH.
+  - destruct p as [|s rest]; [apply equiv_refl|].
+    apply (equiv_app [s] [_] rest (fir_with as_value n rest)); [|apply IH].
+    destruct s; try apply equiv_refl.
+    + apply equiv_if; apply IH.
+    + apply equiv_loop; apply IH.
+Qed.
+
+(* the repaired rule (4486780): every program, the returned VALUE included *)
+Theorem fix_if_return_preserves p : equiv p (fix_if_return_model p).
+Proof. apply fir_n. Qed.
+
+(* the rule before the repair (`return c` for every c): right under the guard only *)
+Lemma old_fir_partial_n n : forall p, fir_safe n p = true -> equiv p (fir_with (fun t => t) n p).
 Proof.
   induction n as [|n IH]; intros p Hs; simpl; [apply equiv_refl|]. simpl in Hs.
   destruct (fir_site p) as [[[t v] rest]|] eqn:Es.
   - apply andb_true_iff in Hs. destruct Hs as [Hb Hr].
     rewrite (fir_site_inv _ _ _ _ Es). destruct v; simpl.
-    + eapply equiv_trans; [apply fir_true; exact Hb|]. apply equiv_cons, IH, Hr.
+    + eapply equiv_trans; [apply (fir_true (fun t => t)), truth_form_id; exact Hb|]. apply equiv_cons, IH, Hr.
     + eapply equiv_trans; [apply fir_false|]. apply equiv_cons, IH, Hr.
   - destruct p as [|s rest]; [apply equiv_refl|].
     apply andb_true_iff in Hs. destruct Hs as [Hk Hr].
-    apply (equiv_app [s] [_] rest (fir n rest)); [|apply IH, Hr].
+    apply (equiv_app [s] [_] rest (fir_with (fun t => t) n rest)); [|apply IH, Hr].
     destruct s; try apply equiv_refl; apply andb_true_iff in Hk; destruct Hk.
     + apply equiv_if; apply IH; assumption.
     + apply equiv_loop; apply IH; assumption.
 Qed.
 
-Theorem fix_if_return_partial p :
-  fir_safe (fuel_of p) p = true -> equiv p (fix_if_return_model p).
-Proof. apply fir_partial_n. Qed.
+Theorem old_fix_if_return_partial p :
+  fir_safe (fuel_of p) p = true -> equiv p (old_fix_if_return_model p).
+Proof. apply old_fir_partial_n. Qed.
 
 Definition st0 : state := mkSt [] 0 [].
 Definition o_obj : oracle := fun _ => VObj true 0.      (* every opaque call returns a truthy non-bool (5) *)
@@ -408,16 +448,18 @@ Ltac refute_with o st p q :=
 Definition fir_witness : list stmt :=
   [SIf (Unknown 1 []) [SReturn (RVal (VBool true))] []; SReturn (RVal (VBool false))].
 
-Theorem fix_if_return_refuted : exists p, ~ obs_equiv p (fix_if_return_model p).
+Theorem old_fix_if_return_refuted : exists p, ~ obs_equiv p (old_fix_if_return_model p).
 Proof.
   exists fir_witness.
-  refute_with o_obj st0 fir_witness (fix_if_return_model fir_witness).
+  refute_with o_obj st0 fir_witness (old_fix_if_return_model fir_witness).
 Qed.
 
-Example fix_if_return_partial_nontrivial :
-  let p := [SEv 1 []; SIf (TNot (Unknown 1 [0])) [SReturn (RVal (VBool true))] []; SReturn (RVal (VBool false))] in
-  fir_safe (fuel_of p) p = true /\ fix_if_return_model p <> p.
-Proof. split; [reflexivity|discriminate]. Qed.
+(* the repaired rule fires on the witness of the old refutation (and on a negated condition) and wraps / keeps the test *)
+Example fix_if_return_nontrivial :
+  fix_if_return_model fir_witness = [SReturn (RTest (TBool (Unknown 1 [])))] /\
+  fix_if_return_model [SEv 1 []; SIf (TNot (Unknown 1 [0])) [SReturn (RVal (VBool true))] []; SReturn (RVal (VBool false))]
+    = [SEv 1 []; SReturn (RTest (TNot (Unknown 1 [0])))].
+Proof. split; reflexivity. Qed.
 
 (* ------------------------------------------------------------------------------------------ *)
 (* fix_if_assign *)
@@ -440,14 +482,12 @@ Proof.
   rewrite (asg_const_inv _ _ _ E1), (asg_const_inv _ _ _ E2), (xorb_true_negb _ _ Ex). reflexivity.
 Qed.
 
-Lemma fia_true t x :
-  boolish t = true ->
-  equiv [SIf t [SAssign x (RVal (VBool true))] [SAssign x (RVal (VBool false))]] [SAssign x (RTest t)].
+Lemma fia_true vf t x :
+  truth_form vf t ->
+  equiv [SIf t [SAssign x (RVal (VBool true))] [SAssign x (RVal (VBool false))]] [SAssign x (RTest (vf t))].
 Proof.
-  intros Hb o st r. rewrite runs_if, runs_assign. simpl eval_rexpr.
-  pose proof (boolish_val t o st Hb) as Hv.
-  destruct (eval_test o st t) as [v st1]. simpl in *.
-  destruct (truthy v) eqn:Et; subst v.
+  intros Hb o st r. rewrite runs_if, runs_assign. unfold eval_rexpr. rewrite (Hb o st). simpl fst. simpl snd.
+  destruct (truthy (fst (eval_test o st t))).
   - split.
     + intros [r1 [H1 H2]]. apply runs_assign in H1. apply runs_nil in H1. subst r1. exact H2.
     + intros H. eexists; split; [apply runs_assign, runs_nil; reflexivity|exact H].
@@ -477,14 +517,36 @@ Proof.
   apply IH. intros; apply H; right; assumption.
 Qed.
 
-Lemma fia_partial_n n :
-  (forall p, fia_safe n p = true -> equiv p (fia n p)) /\
-  (forall e, fia_safe_else n e = true -> equiv e (fia_else n e)).
+Lemma fia_n n :
+  (forall p, equiv p (fia n p)) /\ (forall e, equiv e (fia_else n e)).
+Proof.
+  unfold fia, fia_else.
+  induction n as [|n [IHp IHe]]; split; intros; simpl; try apply equiv_refl.
+  - apply map_equiv. intros s Hin.
+    destruct (fia_site s) as [[[t x] v]|] eqn:Es.
+    + rewrite (fia_site_inv _ _ _ _ Es). destruct v; simpl;
+        [apply (fia_true as_value), truth_form_as_value|apply fia_false].
+    + destruct s; try apply equiv_refl.
+      * apply equiv_if; auto.
+      * apply equiv_loop; auto.
+  - destruct e as [|s tl]; [apply IHp|].
+    destruct s; try apply IHp. destruct tl; [|apply IHp].
+    apply equiv_if; auto.
+Qed.
+
+(* the repaired rule (4486780): every program, the assigned VALUE included *)
+Theorem fix_if_assign_preserves p : equiv p (fix_if_assign_model p).
+Proof. apply (proj1 (fia_n (fuel_of p))). Qed.
+
+Lemma old_fia_partial_n n :
+  (forall p, fia_safe n p = true -> equiv p (fia_with (fun t => t) n p)) /\
+  (forall e, fia_safe_else n e = true -> equiv e (fia_else_with (fun t => t) n e)).
 Proof.
   induction n as [|n [IHp IHe]]; split; intros; simpl; try apply equiv_refl.
   - apply map_equiv. intros s Hin. simpl in H. rewrite forallb_forall in H. specialize (H s Hin).
     destruct (fia_site s) as [[[t x] v]|] eqn:Es.
-    + rewrite (fia_site_inv _ _ _ _ Es). destruct v; simpl; [apply fia_true; exact H|apply fia_false].
+    + rewrite (fia_site_inv _ _ _ _ Es). destruct v; simpl;
+        [apply (fia_true (fun t => t)), truth_form_id; exact H|apply fia_false].
     + destruct s; try apply equiv_refl; apply andb_true_iff in H; destruct H.
       * apply equiv_if; auto.
       * apply equiv_loop; auto.
@@ -493,24 +555,26 @@ Proof.
     apply andb_true_iff in H. destruct H. apply equiv_if; auto.
 Qed.
 
-Theorem fix_if_assign_partial p :
-  fia_safe (fuel_of p) p = true -> equiv p (fix_if_assign_model p).
-Proof. apply (proj1 (fia_partial_n (fuel_of p))). Qed.
+Theorem old_fix_if_assign_partial p :
+  fia_safe (fuel_of p) p = true -> equiv p (old_fix_if_assign_model p).
+Proof. apply (proj1 (old_fia_partial_n (fuel_of p))). Qed.
 
 Definition fia_witness : list stmt :=
   [SIf (Unknown 1 []) [SAssign 0 (RVal (VBool true))] [SAssign 0 (RVal (VBool false))]; SReturn (RVar 0)].
 
-Theorem fix_if_assign_refuted : exists p, ~ obs_equiv p (fix_if_assign_model p).
+Theorem old_fix_if_assign_refuted : exists p, ~ obs_equiv p (old_fix_if_assign_model p).
 Proof.
   exists fia_witness.
-  refute_with o_obj st0 fia_witness (fix_if_assign_model fia_witness).
+  refute_with o_obj st0 fia_witness (old_fix_if_assign_model fia_witness).
 Qed.
 
-Example fix_if_assign_partial_nontrivial :
-  let p := [SIf (TNot (Unknown 1 [])) [SAssign 0 (RVal (VBool true))] [SAssign 0 (RVal (VBool false))];
-            SIf (Unknown 2 []) [SAssign 1 (RVal (VBool false))] [SAssign 1 (RVal (VBool true))]] in
-  fia_safe (fuel_of p) p = true /\ fix_if_assign_model p <> p.
-Proof. split; [reflexivity|discriminate]. Qed.
+Example fix_if_assign_nontrivial :
+  fix_if_assign_model fia_witness = [SAssign 0 (RTest (TBool (Unknown 1 []))); SReturn (RVar 0)] /\
+  fix_if_assign_model
+    [SIf (TNot (Unknown 1 [])) [SAssign 0 (RVal (VBool true))] [SAssign 0 (RVal (VBool false))];
+     SIf (Unknown 2 []) [SAssign 1 (RVal (VBool false))] [SAssign 1 (RVal (VBool true))]]
+  = [SAssign 0 (RTest (TNot (Unknown 1 []))); SAssign 1 (RTest (TNot (Unknown 2 [])))].
+Proof. split; reflexivity. Qed.
 
 (* ------------------------------------------------------------------------------------------ *)
 (* swap_if_else *)
